@@ -172,6 +172,17 @@ def run(chk):
                 return check(SL)
             chk.run("C13.R4", SITE[eq_type], cfg, go, construct=f"{eq_type}: #equations != #unknowns")
 
+        # names are only names: equations called like the equation parameters, or like the unknowns, are still given ALL parameters
+        for label, eqs, unk in (("equation names == parameter names", ('nu', 'th'), ('a', 'b')),
+                                ("equation names == unknown names", ('a', 'b'), ('a', 'b'))):
+            cfg = {"loss": eq_type, "names": label}
+
+            def go(eq_type=eq_type, eqs=eqs, unk=unk, names=names):
+                SL = SystemLoss(E, eq_type, 'PINN', unknowns=unk, equations=eqs, eq_keys=('nu', 'th'),
+                                terms=tuple(t for t in names if t != 'obs'), weights='scalar')
+                return check(SL)
+            chk.run("C13.R4", SITE[eq_type], cfg, go, construct=f"{eq_type}: coinciding names")
+
         # R5: 1x1 system == plain loss
         for pk in ((), ('nu',)):
             cfg = {"loss": eq_type, "param_batch": list(pk)}
